@@ -12,6 +12,18 @@ LEAN = os.path.join(VERIF, "lean")
 sys.path.insert(0, HERE)
 import engine
 
+# Properties whose statement IS "the output equals the published definition": for these, an
+# implementation output that differs from the model's (the model is proved equal to the definition
+# and carries the published constants) on one of the listed operations is itself a concrete failing input.
+CONFORMANCE = {
+    "C03": {"start", "finish", "g.arb", "e.arb", "g.p2s", "e.base", "g.sizes", "p.mns", "newdef"},
+    "C10": {"ser"},
+    "C14": {"g.p2s", "g.arb", "e.arb", "p.mns"},
+    "C15": {"n2b", "b2n", "g.senc", "g.sdec", "sizebits", "sizebytes"},
+    "C17": {"final", "finalsym"},
+    "C18": {"p.mns", "g.sizes", "e.base"},
+}
+
 ALLOWED_AXIOMS = {"propext", "Classical.choice", "Quot.sound"}
 FORBIDDEN = re.compile(r"\b(sorry|admit|native_decide|bv_decide|implemented_by|unsafe)\b|^\s*axiom\s|maxHeartbeats\s+0\b")
 TRUSTED_BASE = [
@@ -246,6 +258,15 @@ def main():
                                                 "lines": f["lines"], "impl": f.get("impl", [])[-8:], "seed": seed, "tier": tier})
         violations.append("VIOLATION property=%s replay=%s" % (prop, path))
         log.append("failing input: %s: %s" % (f["scenario"], f["what"]))
+    for d in res.disagreements[:5]:
+        opn = d["line"].split(" ", 1)[0]
+        if opn in CONFORMANCE.get(prop, ()) and len(violations) < 5:
+            nrep += 1
+            what = "`%s`: the implementation returns %s, the published definition (proved model) gives %s" % (d["line"][:200], d["impl"][:120], d["model"][:120])
+            path = engine.write_replay(prop, nrep, {"property": prop, "kind": "failing-input", "what": what, "scenario": d["scenario"],
+                                                    "lines": engine.shrink_disagreement(d), "seed": seed, "tier": tier})
+            violations.append("VIOLATION property=%s replay=%s" % (prop, path))
+            log.append("failing input: %s: %s" % (d["scenario"], what))
     for kid, cnt in sorted(res.known.items()):
         if kid in listed:
             print("KNOWN-FINDING: property=%s %s: %s (%d inputs of this class in this run)" % (prop, kid, listed[kid]["what"], cnt))
